@@ -299,6 +299,12 @@ def check_pre(ctx, rng, n, big_path, big_bytes):
                 # the one listed class: cut short, killed by the closed pipe, had written to stderr
                 ctx.violation("search through --pre differs from rg on the command's output (model says success)",
                               replay)
+        elif (c["kind"] == "big_noisy" and c["stops"] and not r["err"] and r["status"] == ref["status"]
+              and r["out"] == ref["out"].replace(b"plain.txt", b"input.txt").replace(b"p/input.txt", b"t/input.txt")):
+            # timing: the command managed to write everything (84 KB: rg's first read may take 64 KiB of it and the pipe
+            # holds the rest) and exited 0 before rg closed the pipe — then it simply is a successful command whose
+            # output was searched; the model's outcome 4 assumes it was cut short.  Accepted, counted.
+            ctx.cov["big_noisy_finished_before_close"] = ctx.cov.get("big_noisy_finished_before_close", 0) + 1
         else:
             want_status = 2       # the only file's search failed: nothing counts as matched, even under -q
             problem = None
